@@ -228,6 +228,11 @@ type Result struct {
 	Violations []*Violation `json:"violations,omitempty"`
 	Known      []*Violation `json:"known,omitempty"`
 	HarnessErr string       `json:"harness_error,omitempty"`
+	// Unconfirmed: a violation that was observed but did not recur when its history was re-executed on
+	// fresh trees in the same process. The runner re-runs the whole job in a fresh process: if the same
+	// violation shows up at the same point again, it is deterministic at job level (the outcome depends
+	// on what OTHER trees did earlier in the process: state shared between trees) and is reported.
+	Unconfirmed *Violation `json:"unconfirmed,omitempty"`
 }
 
 // safely runs f, returning the panic text ("" if none).
@@ -469,6 +474,7 @@ func (e *explorer) confirm(v *Violation, path []Op, fill string) bool {
 		v2, _, _, err := EvalPath(e.u, e.m, path, fill, nil)
 		if err != nil || v2 == nil || v2.What != v.What || v2.Observed != v.Observed {
 			e.res.HarnessErr = fmt.Sprintf("violation did not reproduce on re-run %d: %v (first: %s)", i, v2, v)
+			e.res.Unconfirmed = v
 			return false
 		}
 	}
